@@ -40,3 +40,9 @@ package utils
 //@   ensures {C16} [s3-naming-rules] ret0 ==> 3 <= len(bucket) && len(bucket) <= 63 && lowerAlnum(bucket[0]) && lowerAlnum(bucket[len(bucket) - 1]) \
 //@        && (forall i int :: 0 <= i && i < len(bucket) ==> lowerAlnum(bucket[i]) || bucket[i] == '.' || bucket[i] == '-')
 //@   ensures {C16} [no-adjacent-periods] ret0 ==> !strings.Contains(bucket, "..")
+
+// constructors of the hashing readers allocate and return; they touch nothing the caller can see
+//@ func NewHashReader
+//@   frame none
+//@ func NewCompositeChecksumReader
+//@   frame none
